@@ -54,7 +54,7 @@ const (
 )
 
 func (p c20zgPhase) String() string {
-	return [...]string{"live", "zombie", "resurrected"}[p]
+	return [...]string{"live", "zombie", "unknown (neither live nor zombie)"}[p]
 }
 
 // c20zgSent is one delivered message with what came back.
@@ -72,6 +72,19 @@ type c20zgSent struct {
 func (s *c20zgSent) String() string {
 	if s.note != "" {
 		return s.note
+	}
+	if s.err != nil {
+		// lnd's errors spew the whole message
+		msg := s.err.Error()
+		if i := strings.Index(msg, "(*lnwire."); i > 0 {
+			msg = msg[:i] + "..."
+		}
+		if len(msg) > 160 {
+			msg = msg[:160] + "..."
+		}
+		c := *s
+		c.err = fmt.Errorf("%s", msg)
+		s = &c
 	}
 	o := [...]string{"result", "parked (no result)", "timeout"}[s.out]
 	switch s.m.kind {
@@ -558,8 +571,8 @@ func TestVerifC20ZombieGossip(t *testing.T) {
 					switch {
 					case !fresh:
 						if !z {
-							fail("an update older than the "+
-								"zombie horizon removed the "+
+							fail("an update older than the " +
+								"zombie horizon removed the " +
 								"channel from the zombie index")
 						}
 						if s.out != c20Done {
